@@ -465,6 +465,7 @@ func gen(seed uint64, tier string) {
 	for i := 0; i < n; i++ {
 		a := gg.obj(1 + gg.r.Intn(3))
 		fmt.Println("compile " + a.toks())
+		fmt.Println("hasval " + a.toks())
 		for k := 0; k < per; k++ {
 			fmt.Println("judge " + a.toks() + " " + gg.val(a))
 		}
@@ -653,6 +654,24 @@ func run(ts []string) string {
 	t := &toks{t: ts[1:]}
 	att := t.att()
 	switch ts[0] {
+	case "hasval":
+		// does the generator call Validate<Type> for a field of this (object) type? — hasValidations
+		if t.i != len(t.t) {
+			return "bad-op"
+		}
+		ut := &expr.UserTypeExpr{TypeName: "T", AttributeExpr: att}
+		body := &expr.AttributeExpr{Type: &expr.Object{{Name: "f", Attribute: &expr.AttributeExpr{Type: ut}}}}
+		nodes, code, err := emitted(body)
+		if err != nil {
+			return "unrecognised " + lp.Enc(err.Error()+"\n"+code)
+		}
+		if len(nodes) == 0 {
+			return "hasval=0"
+		}
+		if len(nodes) == 1 && nodes[0].kind == "nn" && len(nodes[0].body) == 1 && nodes[0].body[0].kind == "call" {
+			return "hasval=1"
+		}
+		return "unrecognised " + lp.Enc("code for a field of user type: "+show(nodes))
 	case "compile":
 		if t.i != len(t.t) {
 			return "bad-op"
